@@ -214,6 +214,31 @@ impl C10 {
             (Ok(w), Ok(g)) => {
                 if let Err(why) = same_bindings(w, g) {
                     o.fail(&format!("C10/scope:{}", label), format!("{}\nprogram:\n{}\nexpected: {}\nbuild:    {}", why, src, w.iter().map(|(k, v)| format!("{} = {}", k, show_v(v))).collect::<Vec<_>>().join("; "), show_val(g)));
+                } else {
+                    // the same program built as a file (with the static checker): scoping is not
+                    // the checker's to change
+                    self.ucg.reset();
+                    let (file, r) = {
+                        let u = &mut self.ucg;
+                        match catch(std::panic::AssertUnwindSafe(|| u.build_src(&src, true))) {
+                            Ok((p, r)) => (Some(p), r),
+                            Err(pi) => {
+                                u.poison();
+                                (None, Err(format!("panic: {} at {}", pi.msg, pi.loc)))
+                            }
+                        }
+                    };
+                    if let Some(f) = &file {
+                        self.ucg.cleanup_case_dir(f);
+                    }
+                    match r {
+                        Ok(g2) => {
+                            if let Err(why) = same_bindings(w, &g2) {
+                                o.fail(&format!("C10/scope-file-build:{}", label), format!("{} [built as a file]\nprogram:\n{}\nbuild: {}", why, src, show_val(&g2)));
+                            }
+                        }
+                        Err(e) => o.fail(&format!("C10/scope-file-build:{}", label), format!("the program is valid by the scoping rules and evaluates, but building it as a file fails: {}\nprogram:\n{}", e, src)),
+                    }
                 }
             }
             (Err(_), Err(_)) => {}
@@ -228,7 +253,26 @@ impl C10 {
         let b = t.range(10, 19);
         let outer_first = t.chance(1, 2);
         let name = *t.pick(&["x", "item", "p", "acc", "v1", "name"]);
-        match t.choice(9) {
+        match t.choice(10) {
+            9 => {
+                // a module nested in a module, then a module-local name that a file-level binding of
+                // another type also has; the file-level one is used afterwards
+                let inner = E::Module { params: vec![("path".into(), E::Str("/h".into()))], out: None, body: vec![let_("url", E::Field(Box::new(sym("mod")), Sel::Name("path".into())))] };
+                let outer = E::Module {
+                    params: vec![("base".into(), int(b))],
+                    out: None,
+                    body: vec![let_("health", inner), let_(name, add(E::Field(Box::new(sym("mod")), Sel::Name("base".into())), int(a)))],
+                };
+                (
+                    vec![
+                        let_(name, E::Str("http".into())),
+                        let_("service", outer),
+                        let_("svc", E::Copy { base: "service".into(), path: vec![], fields: vec![] }),
+                        let_("label", E::Bin(crate::prog::Op::Add, Box::new(sym(name)), Box::new(E::Str("-alt".into())))),
+                    ],
+                    "nested-module-local-vs-file-level",
+                )
+            }
             0 => {
                 // parameter shadows an outer binding made before or after; the outer value is untouched
                 let mut p = vec![];
